@@ -35,6 +35,7 @@ type verdict struct {
 	incon  []string
 	passed int
 	covers int
+	ignored int
 }
 
 func loadRegistry() ([]HarnessSpec, error) {
@@ -65,7 +66,7 @@ func matchKnown(k []KnownFinding, prop, harness string, o ObResult) *KnownFindin
 		if f.Status != "known" || f.Property != prop {
 			continue
 		}
-		if f.Harness != "" && f.Harness != harness {
+		if f.Harness != "" && !strings.Contains(harness, f.Harness) {
 			continue
 		}
 		if f.Class != "" && f.Class != o.Class {
@@ -128,6 +129,7 @@ func checkMain(args []string) int {
 		fmt.Printf("INCONCLUSIVE no harness registered for %s\n", prop)
 		return 2
 	}
+	sel = expandSpecs(sel, *tier)
 	l, err := loadRepo()
 	if err != nil {
 		fmt.Println("INCONCLUSIVE", err)
@@ -156,6 +158,53 @@ func checkMain(args []string) int {
 		}(i, s)
 	}
 	wg.Wait()
+	// second phase: symbolic-schedule windows over the baseline runs (thorough tier, or quick_windows)
+	var extra []HarnessSpec
+	for i, v := range verdicts {
+		s := sel[i]
+		if s.Window <= 0 || v.res.Err != "" || v.res.NSteps == 0 {
+			continue
+		}
+		stride := s.Stride
+		if stride <= 0 {
+			stride = s.Window
+		}
+		var starts []int
+		if *tier == "thorough" {
+			for a := 1; a < v.res.NSteps; a += stride {
+				starts = append(starts, a)
+			}
+		} else {
+			for _, a := range s.QuickWindows {
+				if a < v.res.NSteps {
+					starts = append(starts, a)
+				}
+			}
+		}
+		for _, a := range starts {
+			w := s
+			w.SymFrom, w.SymTo = a, a+s.Window
+			w.Name = fmt.Sprintf("%s|win%d-%d", s.Name, a, a+s.Window)
+			w.Window = 0
+			extra = append(extra, w)
+		}
+	}
+	if len(extra) > 0 {
+		more := make([]*verdict, len(extra))
+		for i, s := range extra {
+			wg.Add(1)
+			go func(i int, s HarnessSpec) {
+				defer wg.Done()
+				sem <- struct{}{}
+				defer func() { <-sem }()
+				r := runHarness(l, s, false, "")
+				more[i] = judge(prop, s, r, known)
+			}(i, s)
+		}
+		wg.Wait()
+		verdicts = append(verdicts, more...)
+		sel = append(sel, extra...)
+	}
 	exit := 0
 	knownPrinted := map[string]bool{}
 	// native replay: up to 3 violations and 1 reachability witness per harness, one test binary per package
@@ -173,13 +222,13 @@ func checkMain(args []string) int {
 				break
 			}
 			path := writeReplay(prop, v, o)
-			cases = append(cases, &replayFile{Property: prop, Harness: v.spec.Name, Func: v.spec.Func, Pkg: v.spec.Pkg, IntMode: v.spec.Int, Obligation: o})
+			cases = append(cases, &replayFile{Property: prop, Harness: v.spec.Name, Func: v.spec.Func, Pkg: v.spec.Pkg, IntMode: v.spec.Int, Obligation: withParams(o, v.spec), Repeat: v.spec.Repeat})
 			refs = append(refs, caseRef{v, o, false, path})
 		}
 		if !*noReplay && v.res.Err == "" && !v.spec.NoReplay {
 			for _, o := range v.res.Obs {
 				if o.Class == "cover" && o.Result == "sat" {
-					cases = append(cases, &replayFile{Property: prop, Harness: v.spec.Name, Func: v.spec.Func, Pkg: v.spec.Pkg, IntMode: v.spec.Int, Obligation: o})
+					cases = append(cases, &replayFile{Property: prop, Harness: v.spec.Name, Func: v.spec.Func, Pkg: v.spec.Pkg, IntMode: v.spec.Int, Obligation: withParams(o, v.spec)})
 					refs = append(refs, caseRef{v, o, true, ""})
 					break
 				}
@@ -247,6 +296,25 @@ func checkMain(args []string) int {
 	return exit
 }
 
+func withParams(o ObResult, s HarnessSpec) ObResult {
+	if len(s.Params) == 0 {
+		return o
+	}
+	m := map[string]string{}
+	for k, v := range o.Model {
+		m[k] = v
+	}
+	for k, v := range s.Params {
+		if v < 0 {
+			m[k] = fmt.Sprintf("(- %d)", -v)
+		} else {
+			m[k] = fmt.Sprintf("%d", v)
+		}
+	}
+	o.Model = m
+	return o
+}
+
 func flagSet(fs *flag.FlagSet, name string) bool {
 	set := false
 	fs.Visit(func(f *flag.Flag) {
@@ -285,7 +353,33 @@ func judge(prop string, s HarnessSpec, r *HarnessResult, known []KnownFinding) *
 			v.incon = append(v.incon, fmt.Sprintf("reachability witness %q is %s on every path that reaches it (vacuous harness?)", id, res))
 		}
 	}
+	relevant := func(o ObResult) bool {
+		if len(s.Classes) > 0 {
+			ok := false
+			for _, c := range s.Classes {
+				if c == o.Class {
+					ok = true
+				}
+			}
+			if !ok {
+				return false
+			}
+		}
+		if o.Class == "assert" && len(s.AssertIDs) > 0 {
+			for _, sub := range s.AssertIDs {
+				if strings.Contains(o.ID, sub) {
+					return true
+				}
+			}
+			return false
+		}
+		return true
+	}
 	for _, o := range r.Obs {
+		if o.Class != "cover" && o.Class != "batch" && !relevant(o) {
+			v.ignored++
+			continue
+		}
 		switch {
 		case o.Class == "cover":
 		case o.Class == "batch":
@@ -314,7 +408,7 @@ func writeReplay(prop string, v *verdict, o ObResult) string {
 	path := filepath.Join(dir, name)
 	b, _ := json.MarshalIndent(map[string]interface{}{
 		"property": prop, "harness": v.spec.Name, "func": v.spec.Func, "pkg": v.spec.Pkg,
-		"obligation": o, "int_mode": v.spec.Int,
+		"obligation": withParams(o, v.spec), "int_mode": v.spec.Int, "repeat": v.spec.Repeat, "policy": v.spec.Policy, "sym_from": v.spec.SymFrom, "sym_to": v.spec.SymTo,
 	}, "", " ")
 	os.WriteFile(path, b, 0o644)
 	return path
@@ -434,5 +528,66 @@ func keys(m map[string]bool) []string {
 		out = append(out, k)
 	}
 	sort.Strings(out)
+	return out
+}
+
+// expandSpecs turns one registry entry into its family of runs: every combination of the expand parameters
+// times every baseline policy (windows are added after the baselines have run).
+func expandSpecs(in []HarnessSpec, tier string) []HarnessSpec {
+	var out []HarnessSpec
+	for _, s := range in {
+		keys := make([]string, 0, len(s.Expand))
+		for k := range s.Expand {
+			keys = append(keys, k)
+		}
+		sort.Strings(keys)
+		combos := []map[string]int64{{}}
+		for _, k := range keys {
+			var next []map[string]int64
+			for _, c := range combos {
+				for _, v := range s.Expand[k] {
+					n := map[string]int64{}
+					for kk, vv := range c {
+						n[kk] = vv
+					}
+					n[k] = v
+					next = append(next, n)
+				}
+			}
+			combos = next
+		}
+		pols := s.Policies
+		if len(pols) == 0 {
+			pols = []string{s.Policy}
+		}
+		if tier == "quick" && len(s.QuickPolicies) > 0 {
+			pols = s.QuickPolicies
+		}
+		for _, c := range combos {
+			for _, pol := range pols {
+				n := s
+				n.Params = map[string]int64{}
+				for k, v := range s.Params {
+					n.Params[k] = v
+				}
+				var parts []string
+				for _, k := range keys {
+					n.Params[k] = c[k]
+					parts = append(parts, fmt.Sprintf("%s=%d", k, c[k]))
+				}
+				n.Policy = pol
+				n.Expand = nil
+				n.Policies = nil
+				if len(parts) > 0 || pol != "" {
+					n.Name = s.Name + "[" + strings.Join(parts, ",")
+					if pol != "" {
+						n.Name += ";" + pol
+					}
+					n.Name += "]"
+				}
+				out = append(out, n)
+			}
+		}
+	}
 	return out
 }
